@@ -19,6 +19,32 @@ import (
 
 // ---------------------------------------------------------------- guarded library calls
 
+// decoys are marshalled between Marshal(v) and Unmarshal(bytes of v): a round
+// trip must not depend on the encoder being left alone in between (bytes are
+// stored and decoded later in every real use).
+var decoys = func() []cty.Value {
+	long := make([]cty.Value, 48)
+	for i := range long {
+		long[i] = cty.NumberIntVal(int64(i) * 1000003)
+	}
+	return []cty.Value{cty.StringVal("\u00e9decoy"), cty.TupleVal(long), cty.NullVal(cty.Map(cty.Bool))}
+}()
+
+// interleave marshals the decoys and reports whether that disturbed b, the
+// bytes an earlier Marshal call returned.
+func interleave(b []byte, v cty.Value, c spec.T) *facet.Failure {
+	before := append([]byte(nil), b...)
+	for _, d := range decoys {
+		if _, err, pan := marshal(d, cty.DynamicPseudoType); err != nil || pan != nil {
+			return facet.Failf("decoy-marshal-failed", "Marshal(%#v, dynamic) failed: %v %v", d, err, pan)
+		}
+	}
+	if string(before) != string(b) {
+		return facet.Failf("marshal-output-overwritten", "the bytes returned by Marshal(%#v, %s) were %q and read %q after later Marshal calls on other values", v, c, clip(before), clip(b))
+	}
+	return nil
+}
+
 func marshal(v cty.Value, ty cty.Type) (b []byte, err error, pan any) {
 	defer func() {
 		if r := recover(); r != nil {
@@ -147,6 +173,9 @@ func checkRoundTrip(c *facet.Ctx, in codecgen.Case) error {
 	}
 	if err != nil {
 		return facet.Failf("marshal-error", "Marshal(%#v, %s) failed: %v", v, in.C, err)
+	}
+	if f := interleave(b, v, in.C); f != nil {
+		return f
 	}
 	if !json.Valid(b) {
 		return facet.Failf("invalid-json", "Marshal(%#v, %s) produced invalid JSON %q", v, in.C, clip(b))
